@@ -165,6 +165,40 @@ theorem http01_other_binding_rejected (cfg : Cfg) (dbOk : Bool) (ch : Ch) (st : 
   · exact h this.1
   · exact h this.2
 
+
+/-- **http-01 through the real validation client**: the challenge turns valid exactly when the host
+    could be reached, answered within ten redirects with a status below 400, and the *entire* body it
+    sent is white space ++ token "." thumbprint ++ white space — a body that only *starts* with the
+    key authorization (followed by padding and foreign content) is never accepted. -/
+theorem http01_real_client_valid_only_if (cfg : Cfg) (dbOk : Bool) (ch : Ch) (refused : Bool) (redirects : Nat)
+    (status : Int) (body : Str) (hp : ch.status = .pending) :
+    (http01Validate cfg dbOk ch (clientGet refused redirects status body)).status = .valid ↔
+      dbOk = true ∧ refused = false ∧ redirects < 10 ∧ status < 400 ∧
+        ∃ th, ch.thumb = some th ∧ goTrimSpace body = keyAuth ch.token th := by
+  rw [http01_valid_only_if cfg dbOk ch _ hp]
+  unfold clientGet HttpAccept
+  cases refused
+  · by_cases hr : redirects ≥ 10
+    · simp only [Bool.false_eq_true, if_false, hr, if_true]
+      constructor
+      · rintro ⟨_, st, b, th, h, _⟩; cases h
+      · rintro ⟨_, _, h, _⟩; omega
+    · simp only [Bool.false_eq_true, if_false, hr]
+      constructor
+      · rintro ⟨hd, st, b, th, h, hs, ht, hb⟩
+        cases h
+        exact ⟨hd, by simp, by omega, hs, th, ht, hb⟩
+      · rintro ⟨hd, _, _, hs, th, ht, hb⟩
+        exact ⟨hd, status, body, th, rfl, hs, ht, hb⟩
+  · simp only [if_true]
+    constructor
+    · rintro ⟨_, st, b, th, h, _⟩; cases h
+    · rintro ⟨_, h, _⟩; cases h
+
+example : (http01Validate ⟨false, 0, 0⟩ true
+    ⟨.http01, .pending, .none, s "127.0.0.1", s "tok", some (s "thumb"), none⟩
+    (clientGet false 2 200 (s "tok.thumb   <html>anything</html>"))).status = .invalid := by decide
+
 /-! ### what `TrimSpace` removes: only white-space runes at the two ends -/
 
 /-- a concatenation of UTF-8 encoded white-space runes -/
@@ -1629,6 +1663,24 @@ theorem authz_valid_cause (az : AzRec) (cv : Bool) :
   unfold authzUpdateStatus
   cases hs : az.status <;> simp
   cases az.expired <;> cases cv <;> simp
+
+
+/-- **An authorization becomes valid only through a valid challenge**, however many challenges it
+    has and whatever the others are: all of them invalid (or some invalid, some pending) leaves a
+    pending authorization pending -/
+theorem authz_valid_needs_valid_challenge (az : AzRec) (chs : List Status) :
+    authzUpdateStatusL az chs = .valid → az.status = .valid ∨ (az.status = .pending ∧ az.expired = false ∧ .valid ∈ chs) := by
+  intro hv
+  unfold authzUpdateStatusL at hv
+  rcases authz_valid_cause _ _ hv with h | ⟨h1, h2, h3⟩
+  · exact .inl h
+  · refine .inr ⟨h1, h2, ?_⟩
+    obtain ⟨x, hx, he⟩ := List.any_eq_true.1 h3
+    have : x = .valid := by simpa using he
+    rw [← this]; exact hx
+
+example : authzUpdateStatusL ⟨.pending, false⟩ [.invalid, .invalid, .invalid] = .pending := by decide
+example : authzUpdateStatusL ⟨.pending, false⟩ [.invalid, .valid, .pending] = .valid := by decide
 
 /-- **A late but genuine attestation revives nothing**: whatever `deviceAttest01Validate` does
     (any payload, any outcome, also a *valid* challenge), an authorization that is stored invalid,
